@@ -45,7 +45,8 @@ class Contract:
     def __init__(self, file, qualname, *, types=None, requires=(), cases=None, ensures_all=(),
                  modifies=(), loops=None, inline=False, guarded_by=None, returns_kind=None,
                  ghost=None, props=(), pure=False, locals=None, trusted=False, note="",
-                 allow_raise=(), fresh_result=False, setup=None, verify=True, assume_after=None, no_self_inline=False):
+                 allow_raise=(), fresh_result=False, setup=None, verify=True, assume_after=None, no_self_inline=False, variant=None,
+                 lemma_src=None, lemma_module=None):
         self.file = file
         self.qualname = qualname
         self.types = dict(types or {})
@@ -68,13 +69,16 @@ class Contract:
         self.setup = setup                  # callable(cx): extra symbolic setup before requires
         self.verify = verify
         self.no_self_inline = no_self_inline
+        self.variant = variant            # several contracts for one function (e.g. per dispatch class)
+        self.lemma_src = lemma_src        # a lemma: a small program over contracts (asserts are obligations)
+        self.lemma_module = lemma_module
         # {local variable: clause}: ASSUMED right after each assignment to that local (listed as an
         # assumption in evidence), e.g. 'a fresh uuid never collides with an existing study name'
         self.assume_after = dict(assume_after or {})
 
     @property
     def key(self):
-        return (self.file, self.qualname)
+        return (self.file, self.qualname + ("#" + self.variant if self.variant else ""))
 
 
 class Registry:
@@ -93,6 +97,15 @@ class Registry:
 
     def spec(self, file, qualname, **kw):
         c = Contract(file, qualname, **kw)
+        self.contracts[c.key] = c
+        return c
+
+    def lemma(self, name, src, module, params, requires=(), props=(), note=""):
+        """A lemma over contracts: `src` is a function body; calls are resolved through the callees'
+        contracts (never their bodies); every `assert` must hold for all inputs."""
+        c = Contract("<lemma>", name, types=params, requires=requires, props=props, note=note,
+                     lemma_src=src, lemma_module=module, cases=[Case("holds")])
+        c.lemma_params = list(params)
         self.contracts[c.key] = c
         return c
 
